@@ -2031,6 +2031,12 @@ void Interpreter::assign_array_element_float(const std::string &name,
         }
     }
 
+    // const配列の要素は変更不可（整数配列の assign_array_element_safe と同じ）
+    if (var->is_const && var->is_assigned) {
+        error_msg(DebugMsgId::CONST_REASSIGN_ERROR, name.c_str());
+        throw std::runtime_error("Cannot assign to const variable: " + name);
+    }
+
     // 境界チェック
     int idx = static_cast<int>(index);
     if (idx < 0 || idx >= var->array_size) {
